@@ -75,6 +75,8 @@ LookAtoms == { <<"/x", "1", "def">>, <<"/x", "2", "def">>, <<"3", "dict", "begin
                \* and a store through it changes what the name means
                <<"/x", "where", "{", "/x", "get", "}", "{", "6", "}", "ifelse">>,
                <<"/x", "where", "{", "/x", "9", "put", "}", "if">>,
+               \* load pushes whatever the name means, also an operator or an executable name; nothing is executed
+               <<"/add", "load">>, <<"/p", "{", "x", "}", "0", "get", "def", "/p", "load">>,
                <<"userdict", "begin">>, <<"currentdict", "/x", "known">>,
                <<"/add", "{", "pop", "7", "}", "def">>, <<"1", "2", "add">>,
                <<"{", "1", "2", "add", "}", "bind", "/p", "exch", "def">>, <<"p">>,
